@@ -58,6 +58,8 @@ class Hist:
         self.seq = {}
         self.alive = []
         self.sent = {}        # client -> number of complete requests sent
+        self.nbytes = {}      # client -> bytes sent so far
+        self.expect_heads = {}  # client -> [offset at which the head of an Expect request with a body is complete]
 
     def connect(self):
         c = self.next_client
@@ -74,7 +76,10 @@ class Hist:
             head, body = tagged_request(self.rng, c, self.seq[c], expect=expect)
             self.seq[c] += 1
             self.sent[c] += 1
+            if body and b'Expect: 100-continue' in head:
+                self.expect_heads.setdefault(c, []).append(self.nbytes.get(c, 0) + len(data) + len(head))
             data += head + body
+        self.nbytes[c] = self.nbytes.get(c, 0) + len(data)
         for piece in split_pieces(self.rng, data):
             self.ops.append([1, c, piece])
             if poll_between and self.rng.random() < 0.5:
@@ -227,6 +232,8 @@ class ServerProp(Prop):
     def mk(self, h, flags, meta):
         meta = dict(meta)
         meta['sent'] = dict(h.sent)
+        meta['expect_heads'] = dict(getattr(h, 'expect_heads', {}))
+        meta['alive'] = list(getattr(h, 'alive', []))
         return ([9, flags, h.ops], meta)
 
     def split_builds(self, cases, exe, exe_small):
@@ -265,7 +272,18 @@ class ServerProp(Prop):
         status = {}
         polls = []
         errs = []
+        sentb = {}
+        quiet = False
+        quiet_drains = []      # (client, bytes sent by it so far, bytes received by it so far) at drains right after a blocked poll
         for i, op, ls in steps:
+            if op[0] == 1:
+                for ln in ls:
+                    sentb[op[1]] = sentb.get(op[1], 0) + int(ln.split(' ')[5])
+                quiet = False
+            elif op[0] in (6, 11):
+                quiet = bool(ls) and ls[-1].endswith('poll blocked')
+            elif op[0] not in (5,):
+                quiet = False
             for ln in ls:
                 if ' poll ' in ln:
                     polls.append((i, ln))
@@ -291,7 +309,9 @@ class ServerProp(Prop):
                     c = int(p[4])
                     rx[c] = rx.get(c, b'') + (bytes.fromhex(p[5]) if p[5] != '-' else b'')
                     status[c] = p[6]
-        return {'yielded': yielded, 'answered': answered, 'rx': rx, 'status': status, 'polls': polls,
+                    if quiet:
+                        quiet_drains.append((c, sentb.get(c, 0), rx[c]))
+        return {'quiet_drains': quiet_drains, 'yielded': yielded, 'answered': answered, 'rx': rx, 'status': status, 'polls': polls,
                 'errs': errs, 'end': end, 'outstanding': outstanding}
 
     def viol(self, t, exp, obs, sig):
@@ -384,16 +404,21 @@ class C07(ServerProp):
                 h.alive.remove(a)
             if rng.random() < 0.7:
                 h.ops.append([11, 6])
-            c = h.connect()
-            h.ops.append([11, 6])
-            h.request(c, poll_between=False)
-            h.ops.append([11, 6])
-            for _ in range(rng.randint(1, 5)):
-                h.ops.append([12, rng.randint(0, 5)])
-                if rng.random() < 0.5:
+            for _ in range(rng.randint(2, 8)):
+                q = rng.random()
+                if q < 0.45:
+                    h.ops.append([12, rng.randint(0, 5)])
+                elif q < 0.75:
                     h.ops.append([11, 4])
-            d = h.connect()
-            h.request(d, poll_between=False)
+                else:
+                    c = h.connect()
+                    h.ops.append([11, 4])
+                    if rng.random() < 0.5:
+                        h.request(c, poll_between=False)
+                        h.ops.append([11, 4])
+            for c in list(h.alive):
+                if rng.random() < 0.6:
+                    h.drain(c)
             h.finish()
             out.append(self.mk(h, 0, {'kind': 'close-in-flight+reconnect'}))
         # exhaustive short histories over a small alphabet
@@ -481,6 +506,20 @@ class C08(ServerProp):
                                            repr(echoes[:6]) if rs is not None else 'unparseable bytes', 'delivery'))
                         break
                 else:
+                    # no stall: when the epoll descriptor has stopped signalling, a client that has sent the complete
+                    # head of an Expect request has received its 100 Continue
+                    stalled = None
+                    for (c, nsent, got) in a['quiet_drains']:
+                        heads = m.get('expect_heads', {}).get(c, m.get('expect_heads', {}).get(str(c), []))
+                        due = sum(1 for off in heads if off <= nsent)
+                        have = got.count(b' 100 \r\n')
+                        if have < due:
+                            stalled = (c, due, have)
+                            break
+                    if stalled:
+                        v.append(self.viol(t, 'client %d: %d interim responses due once the server is quiescent' % stalled[:2],
+                                           'received %d (unsent output while the epoll descriptor does not signal)' % stalled[2], 'stall'))
+                        continue
                     # no spin: once nothing is left the epoll descriptor stops signalling
                     finals = [ln for (i, ln) in a['polls'][-2:]]
                     if len(finals) == 2 and not all(x.endswith('blocked') for x in finals):
@@ -526,7 +565,7 @@ class C09(ServerProp):
                 continue
             # released as soon as the application has answered what was yielded: at the end (everything answered,
             # polled to quiescence) no closed connection with nothing in flight remains
-            if a['end'] and re.search(r'[\[,]2:0:0', a['end']):
+            if a['end'] and re.search(r'[\[,]2:', a['end']) and not a['outstanding']:
                 v.append(self.viol(t, 'a connection whose client is gone is released once its requests are answered', a['end'], 'not-released'))
         return v
 
@@ -557,6 +596,9 @@ class C10(ServerProp):
                 v.append(self.viol(t, 'at most 10 connections', end, 'cap'))
             if 'FDLEAK' in end:
                 v.append(self.viol(t, 'descriptors held = listener + epoll + one per open connection', end, 'fd-accounting'))
+            if re.search(r'[\[,]2:', end) and not a['outstanding']:
+                v.append(self.viol(t, 'a connection whose client has gone is released once everything yielded from it is answered',
+                                   end, 'not-released'))
             # the refused clients: exactly the 503 message, then disconnected
             ops = t[3]
             first_poll = next((i for i, o in enumerate(ops) if o[0] in (6, 11)), None)
